@@ -62,7 +62,8 @@ Theorem C12_hash_multi_union : forall cell ceqb, (forall a b : cell, ceqb a b = 
   (forall x, In x (hash_multi cell ceqb hs) <-> exists h, In h hs /\ In x h) /\
   NoDup (hash_multi cell ceqb hs).
 Proof.
-  intros cell ceqb E hs. split; [intro x; exact (hash_multi_union cell ceqb E hs x)|exact (hash_multi_NoDup cell ceqb E hs)].
+  intros cell ceqb E hs. split; [intro x; exact (hash_multi_union cell ceqb E (fun _ => []) (fun _ => false) hs x)|].
+  exact (hash_multi_NoDup cell ceqb E hs).
 Qed.
 Print Assumptions C12_hash_multi_union.
 
@@ -139,6 +140,6 @@ Proof. split; [split; [apply @pop_head_none|apply @pop_head_some]|vm_compute; re
 (* three "shapes" with key sets {1,2}, {2,3}, {2}: cell 2 counts all three, cell 1 only the first *)
 Example C12_nonvacuous_collection :
   hash_collection Z (list Z) nat Z.eqb (fun s => s) (@length (list Z)) [[1; 2]; [2; 3]; [2]]%Z
-  = [(1, 1); (2, 3); (3, 1)]%Z%nat /\
+  = [(1%Z, 1); (2%Z, 3); (3%Z, 1)] /\
   hash_multi Z Z.eqb [[1; 2]; [2; 3]; [2]]%Z = [1; 2; 3]%Z.
 Proof. split; vm_compute; reflexivity. Qed.
